@@ -514,10 +514,15 @@ def fn_inserts(u, m, d, it, info, used_fns, probe_fn):
             info["clauses"].append({"file": fs.specfile, "fn": full, "spec_line": lineno, "text": t.strip(), "props": clause_props(t, fs.props), "where": "spec"})
     body = src[it["body_start"]:it["body_end"]].decode() if "body_start" in it else ""
     loops = it.get("loops", [])
-    for anchor, sec, occ in fs.loops:
+    for li, (anchor, sec, occ) in enumerate(fs.loops):
         cands = [l for l in loops if norm(anchor) in l["header"]]
         if len(cands) <= occ:
-            raise Undecided("anchor lost (loop in %s): %r" % (full, anchor))
+            # the header text changed: fall back to the loop at the same position, provided the function still has
+            # exactly as many loops as the sidecar annotates (so the pairing is unambiguous)
+            if len(loops) == len(fs.loops):
+                cands, occ = [loops[li]], 0
+            else:
+                raise Undecided("anchor lost (loop in %s): %r" % (full, anchor))
         l = cands[occ]
         first = sec[0][0] if sec else fs.line
         attr_txt = "#[verus_spec(" + spec_lines_to_text(sec).strip() + "\n)]\n"
